@@ -473,7 +473,11 @@ func (h *httpCache) CacheHandler(w http.ResponseWriter, r *http.Request) {
 			return
 		}
 
-		w.Header().Set("Content-Length", strconv.FormatInt(size, 10))
+		if size >= 0 {
+			// The size is unknown (-1) when only a size-blind proxy
+			// backend vouches for the blob; "-1" is not a valid value.
+			w.Header().Set("Content-Length", strconv.FormatInt(size, 10))
+		}
 		w.WriteHeader(http.StatusOK)
 		h.logResponse(http.StatusOK, r)
 
